@@ -1,5 +1,5 @@
 """C19 — client requests are sent one at a time and answered in FIFO order; redirects (hio.core.http.clienting.Client)."""
-from urllib.parse import parse_qsl, quote_plus
+from urllib.parse import parse_qsl, quote, quote_plus, unquote_to_bytes
 
 from .. import core, sx
 from ..areas import httpflow as hf
@@ -18,11 +18,30 @@ def _tp(target):
     """(path, [(name, value)]) of a request target / Location target given as bytes"""
     t = target.decode("latin-1")
     path, _, q = t.partition("?")
-    return path.encode("latin-1"), [(k.encode("utf-8"), v.encode("utf-8")) for k, v in parse_qsl(q, keep_blank_values=True)]
+    return unquote_to_bytes(path.encode("latin-1")), [(k.encode("utf-8"), v.encode("utf-8")) for k, v in parse_qsl(q, keep_blank_values=True)]
 
 
 def _qa(r):
-    return list(r[3]) if len(r) > 3 else []
+    return list(r[3]) if len(r) > 3 and r[3] is not None else []
+
+
+def _second(case):
+    return list(case[4]) if len(case) > 4 else []
+
+
+def effective19(case, ents):
+    """all requests of the case as they are really queued: a second-run request without path= / qargs= takes what the requester holds
+    when it is queued, i.e. the request fields of the last entry of the first run"""
+    reqs = [(r[0], r[1], r[2], _qa(r)) for r in case[1]]
+    n = len(reqs)
+    for r in _second(case):
+        path, qa = r[1], (r[3] if len(r) > 3 else [])
+        if n and len(ents) >= n:
+            last = ents[n - 1]
+            path = path or last[5]
+            qa = list(last[7]) if qa is None else qa
+        reqs.append((r[0], path, r[2], list(qa or [])))
+    return reqs
 
 
 class C19(core.Check):
@@ -83,6 +102,13 @@ class C19(core.Check):
             (False, R, [(8101, 0, [ok(b"until close", 2), ok(b"x")])], 2),
             (False, R, [(8101, 0, [red(0, 8101, b"/r0"), red(0, 8101, b"/r1"), ok(b"end", 1, 2, (5, 9)), ok(b"b", 0, 3), ok(b"c")])], 0),
             (False, R, [(8101, 0, [red(1, 8101, b"/r0"), ok(b"sec")])], 0),                                    # http -> https on the same port
+            # second run on the same Client after the server closed on it: reopen(), more requests; the failed ones must not go out again;
+            # requests without path= / qargs= take the stored path (space, '%') and arguments
+            (False, [(b"GET", b"/q0", b"", []), (b"POST", b"/q1", b"BODY", []), (b"GET", b"/q2/a b/50%", b"", [(b"k 1", b"v&")])],
+             [(8101, 0, [ok(b"one", 0, 0, (), True), ok(b"x"), ok(b"y", 1), ok(b"z")])], 0,
+             [(b"GET", b"", b"", None), (b"POST", b"/s1", b"p", [(b"n", b"1")]), (b"GET", b"", b"", [])]),
+            (False, [(b"GET", "/q0/\u00e9 x".encode("utf-8"), b"", [(b"a", b"1")])], [(8101, 0, [red(0, 8101, b"/r0%20y?b=2"), ok(b"one"), ok(b"two"), ok(b"three")])], 0,
+             [(b"GET", b"", b"", None), (b"PUT", b"", b"zz", [(b"c", b"3")])]),
             # after a refused (https -> http) or unusable (no Location) redirect the queue goes on; later answers, also 2xx WITH a Location header, are plain answers
             (True, R, [(8101, 1, [red(0, 8102, b"/r0"), ok(b"two"), (201, (1, 8101, b"/made"), b"three", 0, 0, [], False)]), (8102, 0, [ok(b"ONE")])], 0),
             (False, R, [(8101, 0, [(302, None, b"", 0, 0, [], False), (201, (0, 8101, b"/made"), b"two", 1, 0, [], False), ok(b"three")])], 1),
@@ -124,7 +150,7 @@ class C19(core.Check):
             return b""
         if k < 0.35:
             return rng.choice([b"HTTP/1.1 200 OK\r\n\r\n", b"0\r\n\r\n", b"\r\n", b"5\r\nabcde\r\n"])
-        return bytes(rng.randrange(256) for _ in range(rng.choice([1, 2, 5, 17, 64])))
+        return bytes(rng.randrange(256) for _ in range(rng.choice([1, 2, 5, 17, 64] if rng.random() < 0.93 else [8095, 8096, 8097, 20000])))
 
     def generate(self, rng, n, tier):
         for _ in range(n):
@@ -146,7 +172,7 @@ class C19(core.Check):
                 qa = {}
                 for _ in range(rng.choice([0, 0, 1, 2, 3])):
                     qa[rng.choice(keys)] = qtext()
-                reqs.append((method, b"/q%d" % k + rng.choice([b"", b"/x", b"/a/b"]), body, [(a.encode("utf-8"), b.encode("utf-8")) for a, b in qa.items()]))
+                reqs.append((method, b"/q%d" % k + rng.choice([b"", b"/x", b"/a/b", b"/a b", "/\u00e9".encode("utf-8"), b"/50%", b"/%41"]), body, [(a.encode("utf-8"), b.encode("utf-8")) for a, b in qa.items()]))
             rcount = [0]
             servers = []
             pclose = rng.choice([0.0, 0.0, 0.1, 0.3])
@@ -161,7 +187,7 @@ class C19(core.Check):
                         status = rng.choice(REDIRECTS)
                         tp = rng.choice(ports + ([UNKNOWN_PORT] if rng.random() < 0.05 else []))
                         tsec = tls.get(tp, secure) if rng.random() < 0.9 else (not tls.get(tp, secure))
-                        target = b"/r%d" % rcount[0]
+                        target = b"/r%d" % rcount[0] + rng.choice([b"", b"", b"/x%20y", b"/%C3%A9", b"/50%25"])
                         if rng.random() < 0.5:       # the Location carries its own query: some new names, sometimes one of the request's
                             la = {}
                             for _ in range(rng.choice([1, 1, 2])):
@@ -183,10 +209,25 @@ class C19(core.Check):
                     script.append((status, loc, self._body(rng), fr, delay, cuts, rng.random() < pclose))
                 servers.append((p, int(tls[p]), script))
             late = 0 if rng.random() < 0.7 else rng.randrange(1, m + 1)
+            if rng.random() < 0.3:
+                # a second run on the same Client: reopen(), then more requests — some WITHOUT path= / qargs= (the stored ones are used again)
+                second = []
+                for k in range(rng.choice([1, 2, 3])):
+                    method = rng.choice([b"GET", b"GET", b"POST", b"PUT"])
+                    path = b"" if rng.random() < 0.5 else b"/s%d" % k + rng.choice([b"", b"/a b", b"/50%"])
+                    qa = None if rng.random() < 0.4 else [(a.encode("utf-8"), qtext().encode("utf-8")) for a in rng.sample(keys, rng.choice([0, 1, 2]))]
+                    second.append((method, path, b"" if rng.random() < 0.5 else self._body(rng), qa))
+                yield (secure, reqs, servers, late, second)
+                continue
+            if tier == "thorough" and not secure and rng.random() < 0.03:
+                yield ("loop", (secure, reqs, servers, late))      # the same kind of case over real loopback sockets (when it is plain http throughout)
+                continue
             yield (secure, reqs, servers, late)
 
     def request(self, case):
-        secure, reqs, servers, late = case
+        if case[0] == "loop":
+            case = case[1]
+        secure, reqs, servers, late = case[:4]
 
         def loc(l):
             if l is None:
@@ -195,11 +236,26 @@ class C19(core.Check):
             return (bool(l[0]), l[1], path, q)
         return ("c19", bool(secure), servers[0][0], [(r[0], r[1], r[2], _qa(r)) for r in reqs],
                 [(port, [(st, loc(l), body, fr, bool(fr in (2, 3) or cl))
-                         for st, l, body, fr, delay, cuts, cl in script]) for port, sec, script in servers])
+                         for st, l, body, fr, delay, cuts, cl in script]) for port, sec, script in servers],
+                [(r[0], r[1] or None, r[2], None if (len(r) > 3 and r[3] is None) else _qa(r)) for r in _second(case)])
 
     # ------------------------------------------------------------------ real code
+    @staticmethod
+    def _loopable(case):
+        secure, reqs, servers = case[0], case[1], case[2]
+        ports = {p for p, _, _ in servers}
+        return (not secure and not any(sec for _, sec, _ in servers)
+                and all(r[1] is None or (not r[1][0] and r[1][1] in ports) for _, _, sc in servers for r in sc))
+
     def run_impl(self, case):
-        o = hf.c19_run(case)
+        if case[0] == "loop":
+            case = case[1]
+            try:
+                o = hf.c19_run_loopback(case) if self._loopable(case) else hf.c19_run(case)
+            except hf.LoopbackInfra as ex:
+                raise core.Infra(str(ex))
+        else:
+            o = hf.c19_run(case)
         outcome = "running"
         if o["raised"]:
             outcome = "refused" if o["raised"] == ("ValueError", True) else "crashed"
@@ -211,29 +267,25 @@ class C19(core.Check):
         self._last = o
         return (outcome, ents, [tuple(w) for w in o["wire"]], o["waited"], o["left"],
                 # not compared with the model (timing-level facts for the oracle only)
-                ("x", o["overlap"], o["insecure_bytes"], [(s[0], _loc(s[1]), s[2], s[3], s[6]) for s in o["served"]], o["raised"][0] if o["raised"] else None))
+                ("x", o["overlap"], o["insecure_bytes"], [(s[0], _loc(s[1]), s[2], s[3], s[6]) for s in o["served"]], o["raised"][0] if o["raised"] else None, list(o["rids"])))
 
     def compare_view(self, case, obs):
+        if case[0] == "loop":
+            case = case[1]
         return sx.dumps(obs[:5])
 
     # ------------------------------------------------------------------ the property
     def _walk(self, case, obs):
-        """group the wire log by originating request (paths are unique): k -> (indices of its hops)"""
-        secure, reqs, servers, late = case
-        wire = obs[2]
-        first = {}
-        for i, w in enumerate(wire):
-            for k, r in enumerate(reqs):
-                if _tp(w[3])[0] == r[1] and k not in first:
-                    first[k] = i
+        """group the wire log by originating request (every request and its redirect hops carry the X-Req header of the request): k -> indices"""
+        rids = obs[5][5]
         groups = {}
-        starts = sorted(first.values())
-        for k, i in first.items():
-            nxt = min([j for j in starts if j > i], default=len(wire))
-            groups[k] = list(range(i, nxt))
+        for i, k in enumerate(rids):
+            groups.setdefault(k, []).append(i)
         return groups
 
     def oracle(self, case, obs):
+        if case[0] == "loop":
+            case = case[1]
         try:
             return self._oracle(case, obs)
         except (IndexError, KeyError, TypeError, ValueError, AttributeError) as ex:
@@ -241,8 +293,9 @@ class C19(core.Check):
             return ["observation-not-accountable:" + type(ex).__name__]
 
     def _oracle(self, case, obs):
-        secure, reqs, servers, late = case
-        outcome, ents, wire, waited, left, (_, overlap, insecure_bytes, served, raised) = obs
+        secure, servers, late = case[0], case[2], case[3]
+        reqs = effective19(case, obs[1])
+        outcome, ents, wire, waited, left, (_, overlap, insecure_bytes, served, raised, rids) = obs
         bad = []
         if overlap:
             bad.append("one-at-a-time")
@@ -250,9 +303,9 @@ class C19(core.Check):
             bad.append("https-to-http-not-refused")
         groups = self._walk(case, obs)
         # only requests that were queued, or hops of a followed 3xx, may appear on the wire
-        accounted = {i for idx in groups.values() for i in idx}
-        if any(i not in accounted for i in range(len(wire))):
+        if any(k < 0 or k >= len(reqs) for k in groups):
             bad.append("unqueued-request-on-wire")
+            groups = {k: v for k, v in groups.items() if 0 <= k < len(reqs)}
         # transmitted in queue order, as queued
         order = [k for k, _ in sorted(groups.items(), key=lambda kv: kv[1][0])]
         if order != sorted(order):
@@ -322,7 +375,7 @@ class C19(core.Check):
                 if hist and len(chain) >= 2 and (path, rqargs) != _tp(chain[-2][1][2]):
                     bad.append("entry-request-not-the-last-location")
         if outcome == "running":
-            if len(ents) != len(reqs) or waited or left:
+            if len(ents) != len(reqs) or waited or left:   # (reqs includes the second run)
                 bad.append("missing-entries")
         return bad
 
@@ -335,7 +388,7 @@ class C19(core.Check):
 
     def _stuck_on(self, case, obs):
         """id of the known finding if the first request without an entry was drawing a response that cannot complete"""
-        outcome, ents, wire, waited, left, (_, overlap, insecure_bytes, served, raised) = obs
+        outcome, ents, wire, waited, left, (_, overlap, insecure_bytes, served, raised, rids) = obs
         groups = self._walk(case, obs)
         idx = groups.get(len(ents))
         if outcome == "running" and waited and idx and idx[-1] == len(wire) - 1:
@@ -343,18 +396,24 @@ class C19(core.Check):
         return None
 
     def known(self, case, obs, clauses):
+        if case[0] == "loop":
+            case = case[1]
         if clauses == ["missing-entries"]:
             return self._stuck_on(case, obs)
         return None
 
     def nontrivial(self, case, obs):
-        secure, reqs, servers, late = case
+        if case[0] == "loop":
+            case = case[1]
+        secure, reqs, servers, late = case[:4]
         served = obs[5][3]
         return len(reqs) >= 2 and any(s[0] in REDIRECTS or s[4] or s[3] in (2, 3) for s in served) or (len(reqs) >= 2 and any(r[4] or r[5] for _, _, sc in servers for r in sc))
 
     def features(self, case, obs):
-        secure, reqs, servers, late = case
-        outcome, ents, wire, waited, left, (_, overlap, insecure_bytes, served, raised) = obs
+        if case[0] == "loop":
+            return (["real-loopback-sockets"] if self._loopable(case[1]) else []) + self.features(case[1], obs)
+        secure, reqs, servers, late = case[:4]
+        outcome, ents, wire, waited, left, (_, overlap, insecure_bytes, served, raised, rids) = obs
         f = ["https" if secure else "http", f"reqs={len(reqs)}", f"servers={len(servers)}", "outcome:" + outcome, "late" if late else "upfront"]
         f += [f"entries={min(len(ents), 6)}", "waited-at-end" if waited else "idle-at-end"]
         if any(e[2] for e in ents):
@@ -372,10 +431,27 @@ class C19(core.Check):
                 f.append("location:with-query" + (":request-had-args" if _tp(w[3])[1] else ""))
         if any(_qa(r) for r in reqs):
             f.append("requests-with-query-args")
+        if len(case) > 4:
+            f.append("second-run-after-reopen" + (":stored-path-reused" if any(not r[1] for r in case[4]) else ""))
+        if any(b" " in r[1] or b"%" in r[1] or any(c > 127 for c in r[1]) for r in reqs):
+            f.append("path:quote-alters-it")
         return f
 
     def shrink(self, case):
-        secure, reqs, servers, late = case
+        if case[0] == "loop":
+            for c in self.shrink(case[1]):
+                yield ("loop", c)
+            return
+        if len(case) > 4:
+            sec2 = list(case[4])
+            yield tuple(case[:4])
+            for i in range(len(sec2)):
+                if len(sec2) > 1:
+                    yield tuple(case[:4]) + (sec2[:i] + sec2[i + 1:],)
+            for c in self.shrink(tuple(case[:4])):
+                yield tuple(c) + (sec2,)
+            return
+        secure, reqs, servers, late = case[:4]
         if late:
             yield (secure, reqs, servers, 0)
         if len(reqs) > 1:
